@@ -330,6 +330,22 @@ def rule_pool_construction(ctx):
             if extra == ("const", 0):
                 ok = "static_outbound" in s
                 exp = "(static_outbound keys, 0)"
+                if not ok:
+                    # the key set may be filled by a loop: the argument's dependency closure reads the static_outbound collection
+                    la0 = Q.LocalFlow._local_op(c["t"]["args"][0])
+                    if la0 is not None:
+                        flow0 = Q.LocalFlow(f)
+                        clo0 = flow0.closure(la0)
+                        Tf0 = ctx.T(f)
+                        for b0 in f.blocks:
+                            for st0 in b0["s"]:
+                                if st0["k"] == "assign" and st0["p"]["l"] in clo0 and any(x[0] == "field" and x[2] == "static_outbound" for x in subterms(Tf0.rvalue(st0["r"]))):
+                                    ok = True
+                            t0 = b0["t"]
+                            if t0["k"] == "call" and "decl" in t0["f"] and not t0["dest"].get("pr") and t0["dest"]["l"] in clo0 and any(x[0] == "field" and x[2] == "static_outbound" for x in subterms(Tf0.call_term(t0))):
+                                ok = True
+                        if ok and any(x[0] == "field" and x[2] == "static_inbound" for b0 in f.blocks for st0 in b0["s"] if st0["k"] == "assign" and st0["p"]["l"] in clo0 - {l0 for l0 in clo0 if "Config" in f.locals[l0].s or 1 <= l0 <= f.argc} for x in subterms(Tf0.rvalue(st0["r"]))):
+                            ok = False
             else:
                 ok = "static_inbound" in s and chain(extra)[1][-1:] == ["dynamic_inbound_limit"]
                 exp = "(static_inbound, dynamic_inbound_limit)"
